@@ -686,13 +686,6 @@ class VMF:
         self.entities.append(item)
         self.by_class[item['classname', ''].casefold()].add(item)
         self.by_target[item['targetname', ''].casefold() or None].add(item)
-        if 'nodeid' in item:
-            try:
-                node_id = int(item['nodeid'])
-            except (TypeError, ValueError):
-                pass
-            else:
-                item['nodeid'] = str(self.node_id.get_id(node_id))
 
     def remove_ent(self, item: 'Entity') -> None:
         """Remove an entity from the map.
@@ -721,13 +714,6 @@ class VMF:
         for item in ents:
             self.by_class[item['classname'].casefold()].add(item)
             self.by_target[item['targetname', ''].casefold() or None].add(item)
-            if 'nodeid' in item:
-                try:
-                    node_id = int(item['nodeid'])
-                except (TypeError, ValueError):
-                    pass
-                else:
-                    item['nodeid'] = str(self.node_id.get_id(node_id))
 
     def create_ent(self, classname: str, **kargs: ValidKVs) -> 'Entity':
         """Convenience method to allow creating point entities.
